@@ -370,3 +370,37 @@ ROUND2 = {
 for _k, _v in ROUND2.items():
     if _k in CHECKS:
         CHECKS[_k]["text"] += " " + _v
+
+
+# ---- coverage added in build round 3 (after the third set of seeded changes)
+ROUND3 = {
+    "C01": "Round 3: bare truth-valued attributes as conditions next to comparisons over the same attribute (EQLTerms, 608 conditions).",
+    "C02": "Round 3: EQLScalar.tla - domains of values (integers with colliding hashes and the falsy 0, value objects with equal twins), "
+           "every query object evaluated three times.",
+    "C03": "Round 3: one attribute node used for its value in one query and as a condition in another (shared_mapping families; open "
+           "finding C03-F34 attributed by signature).",
+    "C04": "Round 3: every fifth heap consists of falsy objects.",
+    "C05": "Round 3: every fifth heap consists of falsy objects.",
+    "C07": "Round 3: text containers over a second database whose labels contain LIKE wildcards and case variants; a variable over an "
+           "unmapped class must be rejected.",
+    "C08": "Round 3: RuleNewVar.tla (a refinement whose condition introduces a variable of its own, 108 worlds), the rule evaluated before "
+           "it is extended (open finding C08-F35 attributed by signature), SeenSet.tla (the selectors' coverage index).",
+    "C09": "Round 3: every quantified query object is evaluated three times; a form whose domain holds values of other types.",
+    "C10": "Round 3: a method-call operand on an unbound variable; a rule whose refinement introduces a lazily produced variable.",
+    "C11": "Round 3: equal twins that differ in a field the value equality ignores (match(Drawer)(correct=True)); every pattern over an "
+           "explicitly empty domain.",
+    "C12": "Round 3: style varkw (def f(p1, **options)), arguments that are items of ONE object (r.cells[i]), the number-valued function "
+           "compared with 0, an is_expensive predicate on two items of one object (315 shapes).",
+    "C13": "Round 3: Declare / EvalDeclared - the query object is built by one step and evaluated by a later one.",
+    "C14": "Round 3: Ontology.tla Die(D) - part of the population dies between assertions (three schemas; CanDie), the survivors' later "
+           "assertions must produce exactly their closure.",
+    "C15": "Round 3: teaches [= knows with its own inverse taught_by [= known_by; every fifth sequence on falsy instances.",
+    "C16": "Round 3: every fifth two-write sequence on falsy instances.",
+    "C17": "Round 3: K3 as a Role[K1] with two mandatory one-to-one fields.",
+    "C18": "Round 3: strings that spell non-finite floats / JSON literals; a list holding the same sub-value object twice.",
+    "C19": "Round 3: tag classes attr_constant and attr_abstract_base (27 classes); every tag in three calling contexts.",
+    "C20": "Round 3: an exception escaping a partially consumed evaluation is an observation and a violation.",
+}
+for _k, _v in ROUND3.items():
+    if _k in CHECKS:
+        CHECKS[_k]["text"] += " " + _v
